@@ -300,7 +300,7 @@ def run(ctx):
         from ..core import HarnessError
 
         raise HarnessError(reason)
-    n = ctx.scale(48, 4800)
+    n = ctx.scale(32, 4800)
     ctx.pmap(_worker, [(subseed(ctx.seed, PID, w), max(1, n // 16), LEVELS) for w in range(16)])
     ctx.extra["levels"] = LEVELS
     ctx.extra["link_paths"] = ["A: ppci linker + objcopy elf", "B: relocatable ELF + gcc/ld"]
